@@ -9,6 +9,7 @@ import (
 	"runtime"
 	"runtime/debug"
 	"sort"
+	"strings"
 	"time"
 
 	"verif/harness/props"
@@ -54,6 +55,7 @@ type ReplayFile struct {
 	Run      int            `json:"run"`
 	HB       bool           `json:"hb"`
 	Choices  []int          `json:"choices"`
+	PRNG     bool           `json:"prng,omitempty"` // choices are regenerated from (seed, run) instead of being listed (crashed runs)
 	Hash     uint64         `json:"event_log_hash"`
 	Case     map[string]any `json:"case"`
 	Stack    string         `json:"stack,omitempty"`
@@ -69,7 +71,7 @@ func main() {
 		replay   = flag.String("replay", "", "replay file to execute instead of generating runs")
 		rdir     = flag.String("replaydir", "", "directory for replay files of violations")
 		hashes   = flag.Bool("hashes", false, "report the event-log hash of every run")
-		maxViol  = flag.Int("maxviol", 3, "stop after this many violations")
+		maxViol  = flag.Int("maxviol", 1, "stop after this many violations")
 		samples  = flag.Int("samples", 0, "number of sample cases to describe in full")
 		progress = flag.String("progress", "", "file receiving the index of the run in progress (HB mode attribution)")
 		info     = flag.Bool("info", false, "print the property's metadata and exit")
@@ -155,6 +157,24 @@ func main() {
 			rep.Trouble = fmt.Sprintf("run %d: %s", i, res.Trouble)
 			break
 		}
+		if sim.RaceEnabled && res.Class == "" {
+			if report := newRaceReport(); report != "" {
+				// HB mode: the race detector printed a report during this run
+				inFox, detail := judgeRace(report)
+				if !inFox {
+					rep.Trouble = fmt.Sprintf("run %d: race report without fox frames on both sides (harness bug):\n%s", i, report)
+					break
+				}
+				file := fmt.Sprintf("%s/%s-seed%d-run%d-race.json", *rdir, p.ID, *seed, i)
+				res.Case["race_report"] = report
+				if *rdir != "" {
+					writeJSON(file, ReplayFile{Property: p.ID, Class: p.ID + "/data-race", Detail: detail, Seed: *seed, Run: i, HB: true,
+						Choices: rec.Values(), Hash: res.Hash, Case: res.Case})
+				}
+				rep.Violations = append(rep.Violations, Violation{Run: i, Class: p.ID + "/data-race", Detail: detail, Replay: file, From: len(rec.Log), Shrunk: len(rec.Log)})
+				break
+			}
+		}
 		if res.Class != "" {
 			v := Violation{Run: i, Class: res.Class, Detail: res.Detail, From: len(rec.Log)}
 			vals := rec.Values()
@@ -203,6 +223,59 @@ func main() {
 	}
 }
 
+var raceLogSeen int64
+
+// newRaceReport returns what the race detector wrote to its log since the last call (GORACE log_path must point to
+// VERIF_RACELOG; the runtime appends ".<pid>").
+func newRaceReport() string {
+	prefix := os.Getenv("VERIF_RACELOG")
+	if prefix == "" {
+		return ""
+	}
+	b, err := os.ReadFile(fmt.Sprintf("%s.%d", prefix, os.Getpid()))
+	if err != nil || int64(len(b)) <= raceLogSeen {
+		return ""
+	}
+	out := string(b[raceLogSeen:])
+	raceLogSeen = int64(len(b))
+	return out
+}
+
+// judgeRace reports whether both access stacks of the first report contain a fox frame, and a one-line summary.
+func judgeRace(report string) (bool, string) {
+	blocks := strings.Split(report, "\n\n")
+	var acc []string
+	for _, b := range blocks {
+		t := strings.TrimSpace(b)
+		t = strings.TrimPrefix(t, "==================\n")
+		t = strings.TrimPrefix(t, "WARNING: DATA RACE\n")
+		if strings.HasPrefix(t, "Read at") || strings.HasPrefix(t, "Write at") || strings.HasPrefix(t, "Previous read at") || strings.HasPrefix(t, "Previous write at") ||
+			strings.HasPrefix(t, "Atomic") || strings.HasPrefix(t, "Previous atomic") {
+			acc = append(acc, t)
+		}
+		if len(acc) == 2 {
+			break
+		}
+	}
+	if len(acc) < 2 {
+		return false, "unparsed race report"
+	}
+	top := func(b string) string {
+		ls := strings.Split(b, "\n")
+		for i := 1; i < len(ls); i++ {
+			if strings.Contains(ls[i], "github.com/tigerwill90/fox.") {
+				return strings.TrimSpace(ls[i])
+			}
+		}
+		return ""
+	}
+	a, b := top(acc[0]), top(acc[1])
+	if a == "" || b == "" {
+		return false, "race outside fox"
+	}
+	return true, fmt.Sprintf("data race: %s in %s  vs  %s in %s", strings.SplitN(acc[0], " ", 2)[0], a, strings.ToLower(strings.SplitN(acc[1], "\n", 2)[0]), b)
+}
+
 func hashID(id string) uint64 {
 	h := uint64(1469598103934665603)
 	for i := 0; i < len(id); i++ {
@@ -242,7 +315,12 @@ func doReplay(p *props.Prop, runFn func(sim.Source, props.Opts) *props.Result, o
 	}
 	rp := &sim.Replay{Vals: rf.Choices, Strict: true}
 	opts.Trace = true
-	res := runFn(rp, opts)
+	var res *props.Result
+	if rf.PRNG {
+		res = runFn(sim.NewPRNG(sim.Mix(rf.Seed, uint64(rf.Run), hashID(p.ID))), opts)
+	} else {
+		res = runFn(rp, opts)
+	}
 	if rp.Err != nil {
 		fmt.Printf("REPLAY-MISMATCH %v\n", rp.Err)
 		return 2
@@ -251,11 +329,24 @@ func doReplay(p *props.Prop, runFn func(sim.Source, props.Opts) *props.Result, o
 		fmt.Printf("REPLAY-TROUBLE %s\n", res.Trouble)
 		return 2
 	}
+	if sim.RaceEnabled && res.Class == "" {
+		if report := newRaceReport(); report != "" {
+			if inFox, detail := judgeRace(report); inFox {
+				fmt.Printf("REPLAY-VIOLATION property=%s class=%s/data-race\n%s\n%s\n", p.ID, p.ID, detail, report)
+				if rf.Class == p.ID+"/data-race" {
+					return 1
+				}
+				return 3
+			}
+			fmt.Printf("REPLAY-TROUBLE race report without fox frames on both sides\n%s\n", report)
+			return 2
+		}
+	}
 	if res.Class == "" {
 		fmt.Printf("REPLAY-CLEAN property=%s (the recorded violation %s did not occur)\n", p.ID, rf.Class)
 		return 0
 	}
-	same := res.Class == rf.Class && res.Hash == rf.Hash
+	same := res.Class == rf.Class && (res.Hash == rf.Hash || rf.PRNG)
 	fmt.Printf("REPLAY-VIOLATION property=%s class=%s same_class=%v same_event_log=%v\n%s\n", p.ID, res.Class, res.Class == rf.Class, res.Hash == rf.Hash, res.Detail)
 	if res.Stack != "" {
 		fmt.Println(res.Stack)
